@@ -74,6 +74,19 @@ struct Conn
 	int cn = 0, sn = 0; ip::tcp::endpoint cep, sep;
 };
 
+// a connection whose writing socket object is replaced in mid-stream: after each chunk has been handed to the
+// socket (segments still in flight or queued) the socket is move-constructed into a new object and the old one
+// destroyed, the way an application moves a socket into a session object after a handshake exchange
+struct Mover
+{
+	int id = 0; std::unique_ptr<ip::tcp::acceptor> acc; std::unique_ptr<ip::tcp::socket> cs, ss;
+	int cn = 0, sn = 0; ip::tcp::endpoint cep, sep;
+	bool writer_is_server = false; bool also_move_reader = false;
+	std::vector<std::uint64_t> chunks; std::size_t chunk = 0; std::uint64_t off = 0, chunk_left = 0;
+	int piece = 1000; std::int64_t move_delay = 0;
+	std::uint64_t key = 0; std::vector<std::uint8_t> wbuf, rbuf; std::uint64_t rx = 0; int moves = 0;
+};
+
 struct Prog
 {
 	Args const& a; Rng rng; std::string pcap_path;
@@ -82,6 +95,7 @@ struct Prog
 	std::vector<std::unique_ptr<asio::io_context>> ios;
 	std::vector<ip::address> addrs;
 	std::vector<std::unique_ptr<Conn>> conns;
+	std::vector<std::unique_ptr<Mover>> movers;
 	std::vector<std::unique_ptr<UdpS>> udps;
 	std::vector<std::unique_ptr<asio::high_resolution_timer>> timers;
 	std::unique_ptr<ip::tcp::resolver> res;
@@ -167,6 +181,46 @@ struct Prog
 			};
 			if (delay == 0 && t_base == 0) go(); else after(delay, go);
 			desc += fmt(" | tcp n%d->n%d %" PRIu64 "/%" PRIu64, c.cn, c.sn, c.c.goal, c.s.goal);
+		}
+		// connections whose writing socket is moved to a new object between chunks
+		int const nm = rng.coin(1, 2) ? 1 + rng.choose(2) : 0;
+		for (int i = 0; i < nm; ++i)
+		{
+			movers.emplace_back(new Mover());
+			Mover& m = *movers.back();
+			m.id = i;
+			m.cn = rng.choose(nn); do { m.sn = rng.choose(nn); } while (m.sn == m.cn);
+			m.acc.reset(new ip::tcp::acceptor(*ios[std::size_t(m.sn)]));
+			error_code ec;
+			m.sep = ip::tcp::endpoint(addrs[std::size_t(m.sn)], std::uint16_t(4200 + i));
+			API(m.acc->open(ip::tcp::v4(), ec)); API(m.acc->bind(m.sep, ec)); API(m.acc->listen(5, ec));
+			m.cs.reset(new ip::tcp::socket(*ios[std::size_t(m.cn)])); m.ss.reset(new ip::tcp::socket(*ios[std::size_t(m.sn)]));
+			m.writer_is_server = rng.coin(1, 3); m.also_move_reader = rng.coin(1, 4);
+			int const nch = 2 + rng.choose(3);
+			for (int k = 0; k < nch; ++k) m.chunks.push_back(rng.coin(1, 3) ? std::uint64_t(rng.range(1, 3000)) : std::uint64_t(rng.range(3000, 30000)));
+			m.piece = int(rng.pick(std::vector<int>{1, 100, 1475, 4000, 100000}));
+			if (m.piece == 1) for (auto& ch : m.chunks) ch = ch % 200 + 1;
+			m.move_delay = rng.coin() ? 0 : rng.range(0, 20000000);
+			m.key = mix64(hcomb(a.seed, keyseq++)); m.rbuf.assign(5000, 0);
+			Mover* mp = &m;
+			OpPtr aop = ops.make("tcp.accept", 700 + i * 10);
+			API(m.acc->async_accept(*m.ss, track1(aop, [this, mp](error_code const& e) {
+				tr(fmt("accept mover%d ec=%d", mp->id, e.value()));
+				if (e) return; error_code e2; API(mp->ss->non_blocking(true, e2));
+				if (mp->writer_is_server) mover_next_chunk(*mp); else mover_read(*mp); })));
+			OpPtr cop = ops.make("tcp.connect", 700 + i * 10 + 1);
+			std::int64_t const delay = rng.coin() ? 0 : rng.range(0, 30000000);
+			auto go = [this, mp, cop]() {
+				API(mp->cs->async_connect(mp->sep, track1(cop, [this, mp](error_code const& e) {
+					error_code e2; ip::tcp::endpoint le; if (!e) { API(le = mp->cs->local_endpoint(e2)); mp->cep = le; }
+					tr(fmt("connect mover%d ec=%d local=%s:%u", mp->id, e.value(), le.address().to_string().c_str(), unsigned(le.port())));
+					if (e) return; API(mp->cs->non_blocking(true, e2));
+					if (mp->writer_is_server) mover_read(*mp); else mover_next_chunk(*mp); })));
+			};
+			if (delay == 0 && t_base == 0) go(); else after(delay, go);
+			std::string cs;
+			for (auto ch : m.chunks) cs += fmt("%s%" PRIu64, cs.empty() ? "" : "+", ch);
+			desc += fmt(" | moved-socket tcp n%d->n%d %s writes %s in pieces of %d", m.cn, m.sn, m.writer_is_server ? "acceptor-side" : "connector", cs.c_str(), m.piece);
 		}
 		// UDP
 		int const nu = rng.choose(4);
@@ -259,9 +313,70 @@ struct Prog
 		})));
 	}
 
+	std::unique_ptr<ip::tcp::socket>& mover_wsock(Mover& m) { return m.writer_is_server ? m.ss : m.cs; }
+	std::unique_ptr<ip::tcp::socket>& mover_rsock(Mover& m) { return m.writer_is_server ? m.cs : m.ss; }
+	static void replace_by_move(std::unique_ptr<ip::tcp::socket>& sp)
+	{
+		std::unique_ptr<ip::tcp::socket> n;
+		API(n.reset(new ip::tcp::socket(std::move(*sp))));
+		API(sp.reset());
+		sp = std::move(n);
+	}
+	void mover_next_chunk(Mover& m)
+	{
+		if (m.chunk >= m.chunks.size())
+		{
+			error_code ec; API(mover_wsock(m)->close(ec));
+			tr(fmt("mover%d writer closed after %" PRIu64 " bytes, %d moves", m.id, m.off, m.moves));
+			return;
+		}
+		m.chunk_left = m.chunks[m.chunk++];
+		mover_write(m);
+	}
+	void mover_write(Mover& m)
+	{
+		if (m.chunk_left == 0)
+		{
+			if (m.chunk >= m.chunks.size()) { mover_next_chunk(m); return; }
+			// nothing is outstanding on the writing socket object (it never reads): replace it
+			Mover* mp = &m;
+			auto mv = [this, mp]() {
+				replace_by_move(mover_wsock(*mp)); ++mp->moves; R().count("tcp_sockets_moved_in_mid_stream");
+				tr(fmt("mover%d writer moved after %" PRIu64 " bytes", mp->id, mp->off));
+				mover_next_chunk(*mp);
+			};
+			if (m.move_delay == 0) mv(); else after(m.move_delay, mv);
+			return;
+		}
+		std::size_t const n = std::size_t(std::min<std::uint64_t>(m.chunk_left, std::uint64_t(m.piece)));
+		m.wbuf.resize(n); fill_stream(m.wbuf.data(), n, m.key, m.off);
+		Mover* mp = &m;
+		OpPtr op = ops.make("tcp.write", 700 + m.id * 10 + 2);
+		API(mover_wsock(m)->async_write_some(asio::buffer(m.wbuf), track2(op, [this, mp](error_code const& ec, std::size_t w) {
+			if (ec) { tr(fmt("mover%d write ec=%d", mp->id, ec.value())); return; }
+			mp->off += w; mp->chunk_left -= std::min<std::uint64_t>(mp->chunk_left, w);
+			mover_write(*mp);
+		})));
+	}
+	void mover_read(Mover& m)
+	{
+		Mover* mp = &m;
+		OpPtr op = ops.make("tcp.read", 700 + m.id * 10 + 3);
+		API(mover_rsock(m)->async_read_some(asio::buffer(m.rbuf), track2(op, [this, mp](error_code const& ec, std::size_t n) {
+			tr(fmt("mover%d rx=%" PRIu64 "+%zu ec=%d", mp->id, mp->rx, n, ec.value()));
+			if (ec) return;
+			mp->rx += n;
+			// the reading object is replaced now and then as well, between two reads
+			if (mp->also_move_reader && (mp->rx / 4000) % 2 == 1 && mp->moves < 40) { replace_by_move(mover_rsock(*mp)); ++mp->moves; R().count("tcp_reading_sockets_moved_between_reads"); }
+			mover_read(*mp);
+		})));
+	}
+
 	void teardown()
 	{
 		runner.reset(); res.reset(); timers.clear(); aux.clear(); udps.clear();
+		for (auto& m : movers) { m->cs.reset(); m->ss.reset(); m->acc.reset(); }
+		movers.clear();
 		for (auto& c : conns) { c->cs.reset(); c->ss.reset(); c->acc.reset(); }
 		conns.clear(); ios.clear(); sim.reset();
 	}
@@ -288,6 +403,10 @@ void check_capture(Prog& p)
 		if (e.type == int(packet::type_t::payload)) sent.push_back(Sent{&e, from_is_udp.count(e.from) != 0});
 		else if (e.type == int(packet::type_t::error)) ++closing;
 	}
+	// (connector endpoint, acceptor endpoint) of every TCP connection of the program
+	std::vector<std::pair<ip::tcp::endpoint, ip::tcp::endpoint>> pairs;
+	for (auto const& cn : p.conns) pairs.emplace_back(cn->cep, cn->sep);
+	for (auto const& m : p.movers) pairs.emplace_back(m->cep, m->sep);
 	// per record checks
 	std::uint32_t const epoch = 441794304u;
 	std::uint64_t prev_ts = 0; std::size_t si = 0; std::uint64_t zero_tcp = 0;
@@ -336,13 +455,13 @@ void check_capture(Prog& p)
 		// wrote into it on its first trip; the true endpoints are the sockets' bound endpoints)
 		bool src_ok = false;
 		if (c.proto == 17) { for (auto const& u : p.udps) if (v4(u->ep.address()) == c.src && u->ep.port() == c.sport) src_ok = true; }
-		else for (auto const& cn : p.conns)
-			if ((v4(cn->sep.address()) == c.src && cn->sep.port() == c.sport) || (v4(cn->cep.address()) == c.src && cn->cep.port() == c.sport)) src_ok = true;
+		else for (auto const& cn : pairs)
+			if ((v4(cn.second.address()) == c.src && cn.second.port() == c.sport) || (v4(cn.first.address()) == c.src && cn.first.port() == c.sport)) src_ok = true;
 		if (!src_ok) r.violation("C19", "source-address", who + ": source address/port is not a bound endpoint of the sender");
 		bool dst_ok = false;
 		if (c.proto == 17) { for (auto const& u : p.udps) if (v4(u->ep.address()) == c.dst && u->ep.port() == c.dport) dst_ok = true; }
-		else for (auto const& cn : p.conns)
-			if ((v4(cn->sep.address()) == c.dst && cn->sep.port() == c.dport && cn->cep.port() == c.sport) || (v4(cn->cep.address()) == c.dst && cn->cep.port() == c.dport && cn->sep.port() == c.sport)) dst_ok = true;
+		else for (auto const& cn : pairs)
+			if ((v4(cn.second.address()) == c.dst && cn.second.port() == c.dport && cn.first.port() == c.sport) || (v4(cn.first.address()) == c.dst && cn.first.port() == c.dport && cn.second.port() == c.sport)) dst_ok = true;
 		if (!dst_ok) r.violation("C19", "destination-endpoint", who + ": destination is not the peer this packet was sent to");
 		r.count(c.proto == 6 ? "tcp_payload_records_verified" : "udp_records_verified");
 	}
@@ -412,6 +531,7 @@ void run_case(Args const& a, std::uint64_t c)
 	p.runner.reset(); p.res.reset(); p.timers.clear(); p.aux.clear();
 	for (auto& u : p.udps) u->s.reset();
 	for (auto& cn : p.conns) { cn->cs.reset(); cn->ss.reset(); cn->acc.reset(); }
+	for (auto& m : p.movers) { m->cs.reset(); m->ss.reset(); m->acc.reset(); }
 	p.ios.clear(); p.sim.reset();
 	check_capture(p);
 	::unlink(path.c_str());
